@@ -674,6 +674,15 @@ impl ISocket for RouterSocket {
     if !self.core.is_running() {
       return Err(ZmqError::InvalidState("Socket is closing".into()));
     }
+    // A message partly consumed by recv() comes first: hand out its remaining frames instead of
+    // skipping ahead to the next message (which would tear the half-read one apart).
+    if let Some(rest) = self.frame_recv_buffer.lock().take() {
+      if !rest.is_empty() {
+        let mut batch = FrameBatch::with_capacity(rest.len());
+        batch.extend(rest);
+        return Ok(batch);
+      }
+    }
     let rcvtimeo_opt = self.core.core_state.read().options.rcvtimeo;
     let (pipe_read_id, raw_batch) = self.recv_logical_finalized(rcvtimeo_opt).await?;
     let (identity_blob, payload) = self.process_incoming_zmtp_message(pipe_read_id, raw_batch)?;
